@@ -506,13 +506,20 @@ fn call_api(ac: &AccessControlBuiltin, h: u32, api: Api, domain: u16, topic: &st
   res.unwrap_or_else(|_| "DPanic".to_string())
 }
 
-fn a_dom_member(d: &ADom) -> u16 {
-  match d {
-    ADom::Value(v) => *v,
-    ADom::Range(a, _) => *a,
-    ADom::Min(a) => *a,
-    ADom::Max(a) => *a,
-  }
+/// a domain id inside the (possibly empty) id set, for validate_local_permissions' find_rule
+fn a_dom_member(ds: &[ADom]) -> Option<u16> {
+  ds.iter().find_map(|d| match d {
+    ADom::Value(v) => Some(*v),
+    ADom::Range(a, b) => {
+      if a <= b {
+        Some(*a)
+      } else {
+        None
+      }
+    }
+    ADom::Min(a) => Some(*a),
+    ADom::Max(a) => Some(*a),
+  })
 }
 
 struct CheckCase {
@@ -591,6 +598,7 @@ fn run_check(c: &CheckCase, full: bool, signer: &mut Signer, tags: &mut Vec<Stri
     && matches!(c.api, Api::CreateDatawriter | Api::CreateDatareader | Api::CreateTopic)
     && c.doc.is_some()
     && c.dr.is_some()
+    && c.dr.as_ref().and_then(|d| a_dom_member(&d.domains)).is_some()
     && direct != "DParse"
   {
     let d = c.doc.as_ref().unwrap();
@@ -614,7 +622,7 @@ fn run_check(c: &CheckCase, full: bool, signer: &mut Signer, tags: &mut Vec<Stri
       .build();
     let auth = AuthenticationBuiltin::new();
     let mut ac = AccessControlBuiltin::new();
-    let vdomain = a_dom_member(&dr.domains[0]);
+    let vdomain = a_dom_member(&dr.domains).unwrap();
     match catch_unwind(AssertUnwindSafe(|| ac.validate_local_permissions(&auth, 1, vdomain, &qos))) {
       Ok(Ok(h)) => {
         tags.push("full_path:run".into());
